@@ -153,7 +153,7 @@ def evaluate(ctx, items, flagsets, open_map, ids):
 
 def flag_setup():
     open_map = X.open_flags(["C14", "C07"])
-    flagsets = X.subsets([f for f in X.FFLAGS + ["stale_changer", "fee_after_body"] if f in open_map])
+    flagsets = X.subsets([f for f in X.FFLAGS + ["stale_changer"] if f in open_map])
     return open_map, flagsets
 
 
